@@ -785,9 +785,9 @@ func (h *h2Hist) opStraddle(c *h2Client) {
 			num = uint16(cb.Number)
 		}
 	}
-	kind := h.rng.Intn(4)
+	kind := h.rng.Intn(6)
 	T := srv.permissionTimeout
-	if kind == 2 {
+	if kind == 2 || kind >= 4 {
 		T = srv.channelBindTimeout
 	}
 	if kind == 3 {
@@ -835,6 +835,23 @@ func (h *h2Hist) opStraddle(c *h2Client) {
 	}
 	h.vt.Stat(fmt.Sprintf("straddle.kind%d", kind))
 	keep()
+	if kind >= 4 {
+		// a REJECTED request at mid-life must not extend anything: bind num->p, then at mid-life ask for the same
+		// number with another peer (kind 4) or the same peer with another number (kind 5): 400, nothing changes
+		h.goodReq(c, stun.MethodChannelBind, "bind", fmt.Sprintf("num=%d peer=%s", num, canonAddr(p)), proto.ChannelNumber(num), pa)
+		h.sleepOp(T/2 + 3*time.Millisecond)
+		keep()
+		if kind == 4 {
+			h.goodReq(c, stun.MethodChannelBind, "bind", fmt.Sprintf("num=%d peer=%s", num, canonAddr(sib)), proto.ChannelNumber(num), proto.PeerAddress{IP: sib.IP, Port: sib.Port})
+		} else {
+			other := uint16(0x4000 + (int(num)-0x4000+1)%3)
+			h.goodReq(c, stun.MethodChannelBind, "bind", fmt.Sprintf("num=%d peer=%s", other, canonAddr(p)), proto.ChannelNumber(other), pa)
+		}
+		h.sleepOp(T/2 + time.Second)
+		kind = 2
+		probes() // the binding's (un-extended) timeout has passed
+		return
+	}
 	establish()
 	h.sleepOp(T/2 + 3*time.Millisecond)
 	keep()
